@@ -223,6 +223,9 @@ func (g *qgen) subquery(src rel, depth int) rel {
 			out = append(out, col{a + ".cnt", "int", false})
 			for _, c := range sc {
 				if c.typ == "int" && g.r.Bool() {
+					if g.feat["outer_join"] {
+						g.feat["agg_over_outer_join"] = true
+					}
 					items = append(items, fmt.Sprintf("SUM(%s) AS sm", c.name))
 					out = append(out, col{a + ".sm", "int", true})
 					break
@@ -230,6 +233,9 @@ func (g *qgen) subquery(src rel, depth int) rel {
 			}
 			for _, c := range sc {
 				if c.typ != "list" && g.r.Chance(1, 3) {
+					if g.feat["outer_join"] {
+						g.feat["agg_over_outer_join"] = true
+					}
 					items = append(items, fmt.Sprintf("MAX(%s) AS mx", c.name))
 					out = append(out, col{a + ".mx", c.typ, true})
 					break
